@@ -16,11 +16,11 @@ CLAIMED = {
     # id: (technique detail, level text, level note, design_ref)
     "C01": ("symbolic execution of the real solve_sat with the four budgets (solution_limit, luby_factor, max_conflicts, max_restarts) as unbounded SMT Ints over an enumerated/seeded CNF space; z3 branch queries; returned models checked against the CNF",
             "Bounded model checking: for every CNF and assumption list in the stated space and EVERY value of the four tuning parameters (symbolic, unbounded), every returned assignment satisfies all clauses and assumptions and enumerated models are pairwise distinct; includes a pass with reduce_db's threshold lowered to 2 (in-memory copy of the function).",
-            GEN_NOTE + " CNF structure is enumerated (exhaustive up to 3 clauses over 3 variables, sampled/named beyond), not symbolic.",
+            GEN_NOTE + " CNF structure is enumerated (exhaustive up to 3 clauses over 3 variables, sampled/named beyond), not symbolic. One known finding (solve_sat([[]]) returns OPTIMAL {}), listed in known_findings.json, printed as KNOWN-FINDING on every run.",
             "DESIGN.md 4/C01"),
     "C02": ("symbolic execution of the real solve_sat with unbounded symbolic budgets; z3 as independent SAT oracle for verdicts and for entailment of every learned clause (SOLVOR_VERIF hook trace); luby() executed symbolically against the reference sequence",
             "Bounded model checking: INFEASIBLE only if z3 says unsat, a model whenever z3 says sat unless the path condition forces a budget to be exhausted (MAX_ITER justified by the path condition), every learned clause implied by formula + earlier blocking clauses, every path returns within the wall budget (hangs replayed natively), luby(i) equals the reference for i<=512.",
-            GEN_NOTE + " Hook: solvor/sat.py reports learned clauses / ticks when SOLVOR_VERIF=1.",
+            GEN_NOTE + " Hook: solvor/sat.py reports learned clauses / ticks when SOLVOR_VERIF=1. One known finding (solve_sat([[]]) returns OPTIMAL {} for an unsatisfiable formula), listed in known_findings.json, printed as KNOWN-FINDING on every run.",
             "DESIGN.md 4/C02"),
     "C08": ("symbolic execution of the real max_flow with every capacity an unbounded non-negative SMT Int per topology; obligations (capacity, conservation, value = min cut over all 2^(n-2) cuts) discharged by z3",
             "Bounded model checking: for every topology in the bound (all 4-node graphs with <=4 arcs + named 6-7 node family) and EVERY capacity vector, the returned flow is feasible and its value equals the minimum cut.",
